@@ -30,7 +30,7 @@ import (
 	"time"
 )
 
-const verifDir = "/verif"
+var verifDir = "/verif"
 
 var repoDir = "/repo"
 
@@ -1109,6 +1109,9 @@ func main() {
 	}
 	if v := os.Getenv("VERIF_REPO"); v != "" {
 		repoDir = v
+	}
+	if v := os.Getenv("VERIF_DIR"); v != "" {
+		verifDir = v
 	}
 	switch os.Args[1] {
 	case "build":
